@@ -1009,10 +1009,12 @@ class Gridder(GeospatialGrid):
 
             segment_distances_repeated = np.repeat(segment_distances, count_subsegments)
 
+            # A zero-length segment (repeated point) consists of a single
+            # piece, which gets all of the segment's integrated values.
             subsegment_distance_fractions = np.divide(
                 subsegment_distances,
                 segment_distances_repeated,
-                out=np.zeros_like(subsegment_distances),
+                out=np.ones_like(subsegment_distances),
                 where=segment_distances_repeated != 0,
             )
 
